@@ -330,6 +330,12 @@ TEMPLATES = [
     ("snmp-server host {ip} traps version 2c {} udp-port 162", ALL, "keep"),
     ("snmp-server mib community-map {}:100 context public1", ALL, "keep"),
     ("rf-switch snmp-community {}", ALL, "keep"),
+    # a quoted secret followed, on the same line, by further text that holds another quoted string
+    ("set system radius-server {ip} secret \"{}\" source-address \"lo0\"", NOT_NUM, "keep"),
+    (" secret \"{}\" description \"core uplink\"; ## SECRET-DATA", NOT_NUM, "keep"),
+    ("vpdn username bob password \"{}\" comment \"dial in\"", NOT_NUM, "keep"),
+    ("set security ike policy p1 pre-shared-key ascii-text \"{}\" remark \"site b\"", ALL, "keep"),
+    ("set snmp community \"{}\" clients \"all nets\" authorization read-only", ALL, "keep"),
     ("my hash is {}", ("md5", "j9"), "keep"),
     ("foo bar \"{}\"; baz", ("md5", "j9"), "keep"),
     ("<pre_shared_key>{}</pre_shared_key>", ("aws",), "keep"),
